@@ -23,7 +23,7 @@ PATTERNS = ["*", "src/*", "debian/rules", "a?.c", "doc/æ—¥æœ¬èªž.txt", "doc/æ—¥æ
 TEXTS = ["line1", "line1\n\n  indented\nlast", "Ã© Ã¼\n\n\nx", "a\n .\nb", "  lead", "t\n. \n  .\nend", "", "ends with blanks  ",
          "l1\nlast line\t ", "a\nb\u3000",
          "quoted statement:\n-----BEGIN PGP SIGNED MESSAGE-----\nHash: SHA256\n\nbody\n-----BEGIN PGP SIGNATURE-----\nabc=\n-----END PGP SIGNATURE-----\nafter",
-         "-----END PGP PUBLIC KEY BLOCK-----", "Rene\u0301 Mu\u0308ller\n\u212b \u2126 \ufb01 (not in a Unicode normal form)"]
+         "-----END PGP PUBLIC KEY BLOCK-----", "\nsecond line after an empty first line", "\n\n  x", "Rene\u0301 Mu\u0308ller\n\u212b \u2126 \ufb01 (not in a Unicode normal form)"]
 SYNOPSES = ["GPL-2+", "MIT or Expat", "X", "GPL-2+ with exception"]
 COPYRIGHTS = ["2020 A", "2020 A\n 2021 B <b@c>", "Â© Ã©", "", "2020 Rene\u0301 \u212b", "2020 A\n 2021 B  ", "2020 A\n -----BEGIN PGP SIGNATURE-----\n 2021 B"]
 
